@@ -17,6 +17,8 @@
 (*   cap    : capacity per archetype (sequence, index a+1)                 *)
 (*   rm     : number of removals per archetype                             *)
 (*   dirs   : direct-handle records [d, t, a, born] (born = rm at minting) *)
+(*   deadD  : direct-handle tokens that have died (a removal happened     *)
+(*            after they were issued); must never be current again        *)
 (*   evc,evd: pending created / destroyed events per archetype (sets)      *)
 (*   aver   : archetype version last seen in a dump (for overflow faults)  *)
 (*   wrapped / awrapped: per archetype, a slot generation / the archetype  *)
@@ -59,7 +61,7 @@ NewWorld(caps) ==
     [alive |-> <<>>, issued |-> {}, cap |-> caps, rm |-> Zeros, dirs |-> {},
      evc |-> [i \in 1..NA |-> {}], evd |-> [i \in 1..NA |-> {}],
      aver |-> [i \in 1..NA |-> <<0, 1>>], wrapped |-> [i \in 1..NA |-> FALSE],
-     awrapped |-> [i \in 1..NA |-> FALSE]]
+     awrapped |-> [i \in 1..NA |-> FALSE], deadD |-> {}]
 
 (***************************************************************************)
 (* Keys.  A key record is [k, kd, lv, at]: token, kind ("e" typed entity,  *)
@@ -181,7 +183,8 @@ ArchObsViol(w, wid, x, keep, at) ==
     \cup If(x.snapok /\ Len(x.snap) # x.len, {V(<<"C06">>, at, "number of items differs from len()")})
     \cup If(x.snapok /\ toks # live, {V(<<"C06", "C01">>, at, "read path presents a different set of entities than the live ones")})
     \cup If(x.snapok /\ ~NoDup([i \in DOMAIN x.snap |-> x.snap[i][1]]), {V(<<"C06">>, at, "read path presents an entity twice")})
-    \cup If(x.snapok /\ toks = live /\ rows # exp, {V(<<"C02">>, at, "read path returns values other than the entity's own latest ones")})
+    \cup If(x.snapok /\ \E i \in DOMAIN x.snap : x.snap[i][1] \in live /\ x.snap[i][2] # w.alive[x.snap[i][1]].vals,
+            {V(<<"C02">>, at, "read path returns values other than the entity's own latest ones")})
     \cup If(\E i \in DOMAIN x.mint : x.mint[i][2][1] # "d",
             {V(<<"C09", "C01">>, at, "to_direct rejects a live entity")})
     \cup If({x.mint[i][1] : i \in DOMAIN x.mint} # live, {V(<<"C06">>, at, "entities() differs from the live entities")})
@@ -290,10 +293,15 @@ ObserveWorld(w, o, keep, at) ==
         countViol == If(\E i \in DOMAIN o.pe : ProbeCount(o.pe[i]) # o.pe[i].n, {V(<<"TOOL">>, at, "probe path count mismatch")})
                 \cup If(\E i \in DOMAIN o.pd : ProbeCount(o.pd[i]) # o.pd[i].n, {V(<<"TOOL">>, at, "probe path count mismatch")})
         probed == {o.pd[i].k : i \in DOMAIN o.pd}
+        \* tokens whose record has died; a token that is current again later would make the old
+        \* copy of the handle accepted after a removal (C09), whatever entity it then reaches
+        dead == w1.deadD \cup {r.d : r \in {x \in w1.dirs : x.born < w1.rm[x.a + 1] /\ ~w1.awrapped[x.a + 1]}}
+        reborn == If(\E r \in w1.dirs : r.born = w1.rm[r.a + 1] /\ r.d \in dead /\ ~w1.awrapped[r.a + 1],
+                     {V(<<"C09">>, at, "a direct handle issued before a removal is bit-identical to one that is current now: the old copy is accepted again")})
         \* forget records that are dead and no longer probed (bounded state)
-        w2 == [w1 EXCEPT !.dirs = {r \in @ : r.born = w1.rm[r.a + 1] \/ r.d \in probed}]
+        w2 == [w1 EXCEPT !.dirs = {r \in @ : r.born = w1.rm[r.a + 1] \/ r.d \in probed}, !.deadD = dead]
     IN [w |-> w2,
-        v |-> archViol \cup probeViol \cup countViol \cup MintClash(w1, at) \cup WorldEventViol(w1, o, at)]
+        v |-> archViol \cup probeViol \cup countViol \cup reborn \cup MintClash(w1, at) \cup WorldEventViol(w1, o, at)]
 
 (***************************************************************************)
 (* Loop bodies (ecs_iter!, ecs_iter_borrow!, ecs_iter_destroy!, finds):    *)
